@@ -5,7 +5,10 @@ P=$1; ID=$2; TIER=${3:-quick}
 cd /repo || exit 2
 if ! git diff --quiet; then echo "/repo has uncommitted changes"; exit 2; fi
 git apply "$P" || { echo "patch does not apply"; exit 2; }
+# the evidence file of record is the one written on the unchanged tree: keep it
+cp /verif/evidence/$ID.json /tmp/evidence.$ID.$$ 2>/dev/null
 (cd /verif && ./check "$ID" --tier "$TIER"); rc=$?
+[ -f /tmp/evidence.$ID.$$ ] && mv /tmp/evidence.$ID.$$ /verif/evidence/$ID.json
 git -C /repo checkout -- . ; git -C /repo clean -fdq
 echo "check exit=$rc"
 exit $rc
